@@ -384,6 +384,20 @@ def outcome(conv):
     return ('err', conv.exc)
 
 
+class _Hung:
+    ok, exc, msg, text = False, 'Hang', 'the conversion did not finish', None
+
+
+def convert(text, args=()):
+    '''impl.convert under a time limit (a front end that stops advancing must
+    be reported, not hang the check).'''
+    try:
+        with I.time_limit(60):
+            return impl.convert(text, args, keep_stdout=False)
+    except I.ImplHang:
+        return _Hung()
+
+
 def fortran_only(tok):
     '''A number spelling Fortran reads and Python's float() does not.'''
     try:
@@ -445,7 +459,7 @@ def known_class(base_text, text, base, new, msg):
 
 
 def compare(base_text, base, text, desc, numbers, res, args=()):
-    conv = impl.convert(text, args, keep_stdout=False)
+    conv = convert(text, args)
     new = outcome(conv)
     if new == base:
         return True
@@ -476,7 +490,12 @@ def run_sweep(res, tier, rng):
         deck = D.gen_deck(rng)
         base_text = D.render(deck, None)
         args = D.lattice_args(deck)
-        base = outcome(impl.convert(base_text, args, keep_stdout=False))
+        base = outcome(convert(base_text, args))
+        if base == ('err', 'Hang'):
+            res.violation('impl-violation', 'the conversion of a generated deck '
+                          'does not finish',
+                          {'input': {'deck': base_text, 'rewrite': base_text,
+                                     'args': list(args)}}, found_input=True)
         res.count('sweep:base:' + (base[0] if base[0] == 'ok' else str(base[1])))
         if base[0] == 'ok':
             n_ok += 1
@@ -532,7 +551,12 @@ WITNESSES = [
 
 def run_witnesses(res):
     base_text = WITNESS_BASE.format(rho='-1.0', r='5.0', t='1.0', f='1.0', x='1.0')
-    base = outcome(impl.convert(base_text, keep_stdout=False))
+    base = outcome(convert(base_text))
+    if base[0] != 'ok':
+        res.violation('impl-violation', 'the witness deck no longer converts: '
+                      + str(base[1]),
+                      {'input': {'deck': base_text, 'rewrite': base_text}},
+                      found_input=True)
     for label, fields in WITNESSES:
         text = WITNESS_BASE.format(**fields)
         res.seen(text)
